@@ -169,6 +169,8 @@ def parse_const(s):
     m = re.fullmatch(r"(-?[\d.]+(?:[eE][-+]?\d+)?)(f32|f64)", s)
     if m:
         return ("const", "float", float(m.group(1)), m.group(2))
+    if s.startswith("ZeroSized: "):
+        return ("const", "zst", s[len("ZeroSized: "):], None)
     # named constant / promoted / fn item / ZST
     return ("const", "named", s, None)
 
@@ -229,6 +231,19 @@ def parse_rvalue(s):
     if s.startswith("(") and s.endswith(")"):
         items = [x for x in split_top(s[1:-1]) if x]
         return ("tuple", [parse_operand(x) for x in items])
+    # closure aggregate: {closure@file:l:c: l:c} { cap: op, ... }  (or a bare closure type for a capture-less closure)
+    if s.startswith("{closure@") or s.startswith("{coroutine@"):
+        k = s.index("}")
+        ctype = s[:k + 1]
+        rest = s[k + 1:].strip()
+        fields = []
+        if rest.startswith("{") and rest.endswith("}"):
+            for part in split_top(rest[1:-1].strip()):
+                if not part:
+                    continue
+                kk, v = part.split(": ", 1)
+                fields.append((kk.strip(), parse_operand(v)))
+        return ("closure", ctype, fields)
     # struct aggregate: Path { f: op, ... }
     m = re.fullmatch(r"([\w:<>,' &\[\];]+?) \{ (.*) \}", s, re.S)
     if m:
